@@ -400,6 +400,15 @@ struct StreamSim : Sim {
                         p.cfg[k + "fragmode"] = g.chance(2, 3) ? 0 : (int64_t) (1 + g.below(2));
                         p.cfg[k + "fragA"] = (int64_t) (g.chance(1, 2) ? 1 + g.below(40) : 1 + g.below(2100));
                         p.cfg[k + "fragB"] = (int64_t) (1 + g.below(300));
+                        if (kind <= K_MUR && g.chance(1, 10)) {
+                                // padding-edge script: a first piece that leaves P bytes pending, a second that ends exactly on a block boundary, and a last
+                                // piece of R bytes (P, R in the last 24 bytes of a block: one- and two-block padding, with a used buffer behind R)
+                                uint64_t P = 1000 + g.below(24), R = 1000 + g.below(24);
+                                p.cfg[k + "fragmode"] = 3;
+                                p.cfg[k + "fragA"] = (int64_t) P;
+                                p.cfg[k + "fragB"] = (int64_t) R;
+                                p.cfg[k + "len"] = (int64_t) (1024 * (1 + g.below(3)) + R);
+                        }
                         if (kind <= K_MUR)
                                 p.cfg[k + "fam"] = (int64_t) g.below(5);
                         else if (kind == K_ROLL) {
@@ -585,6 +594,18 @@ struct StreamSim : Sim {
                 case 9: n = carry ? (1024 - carry) - 1 : 1023; break; // stays just below
                 case 10: n = rem; break;
                 default: n = o.c % (rem + 1); break;
+                }
+                if (c.fragmode == 3) {
+                        size_t total = c.stream.size();
+                        if ((o.b % 12) == 0)
+                                return 0;
+                        if (c.pos == 0)
+                                n = c.fragA;
+                        else if (c.pos == c.fragA && total > c.fragA + c.fragB)
+                                n = total - c.fragB - c.fragA;
+                        else
+                                n = rem;
+                        return std::min(n, rem);
                 }
                 if (c.fragmode && (o.b % 12) != 0 && (o.b % 12) != 10)
                         n = (c.fragmode == 2 && (c.nfrag++ & 1)) ? c.fragB : c.fragA;
